@@ -84,6 +84,8 @@ type c19Case struct {
 	// points too, so two connections can be in the middle of fetching the same node. Nothing is written, so
 	// each connection's observations must equal its solo run, and neither may wait for the other.
 	Nodes bool `json:"nodes,omitempty"`
+	// Prefix, when set, is one complete recorded schedule: only that execution runs (witness confirmation, replay)
+	Prefix []int `json:"prefix,omitempty"`
 }
 
 func c19NodeStreams() []c19Stream {
@@ -170,7 +172,7 @@ func c19Worker(raw json.RawMessage) *engine.Result {
 		c19Vecs[s] = vec
 		return s
 	}
-	check := func(s *engine.Sched) {
+	check0 := func(s *engine.Sched) {
 		vec := c19Vecs[s]
 		delete(c19Vecs, s)
 		res.Execs++
@@ -261,6 +263,26 @@ func c19Worker(raw json.RawMessage) *engine.Result {
 			sample = append([]string{}, s.Labels...)
 		}
 		s.W.Close()
+	}
+	check := func(s *engine.Sched) {
+		nv := len(res.Viol)
+		check0(s)
+		if len(res.Viol) > nv && len(s.Taken) > 0 {
+			// the witness is this one schedule, not the whole search
+			one := c
+			one.Prefix = append([]int{}, s.Taken...)
+			for i := nv; i < len(res.Viol); i++ {
+				res.Viol[i].Case = engine.J(one)
+			}
+		}
+	}
+	if len(c.Prefix) > 0 {
+		// a recorded schedule: exactly this one execution (witness confirmation and replay)
+		s := mk(c.Prefix)
+		s.Execute()
+		check(s)
+		res.Data = engine.J(map[string]interface{}{"shared_prefix": c.Shared, "connections": c.N, "single_schedule": true, "decisions": len(c.Prefix), "solo_vectors": solo})
+		return res
 	}
 	deadline := time.Now().Add(10 * time.Minute)
 	execs, pruned, states, complete := engine.Explore(mk, check, -1, true, func() bool { return stuck || time.Now().After(deadline) })
